@@ -409,7 +409,15 @@ func hostArg(fr *frame, arg value) any {
 	case bool, int, int8, int16, int32, int64, uint, uint8, uint16, uint32, uint64, uintptr, float32, float64, string, complex64, complex128:
 		return v
 	case *sym:
-		return hostStringer{"<sym>"}
+		// A value that has exactly one feasible value under the path condition
+		// (e.g. a page base computed from base+offset) is printed as that value:
+		// formatted strings may be data (map keys). A truly symbolic value is
+		// printed as a recognisable placeholder; using such a string as a map
+		// key is an engine error (map.go), never a silent mismatch.
+		if cv, ok := fr.i.m.uniqueValue(v); ok {
+			return cv
+		}
+		return hostStringer{symPlaceholder}
 	case []value:
 		// []byte / []string etc.
 		out := make([]any, len(v))
